@@ -31,20 +31,22 @@ Record stream := mkS {
   producing : bool;
   pleft : nat;
   pchunk : Z;
-  mleft : list Z
+  mleft : list Z;
+  lazy : bool
 }.
 
-Definition set_q (v : list (option Z)) (x : stream) : stream := mkS (sid x) v (swin x) (blocked x) (sent x) (body x) (finished x) (hasprod x) (producing x) (pleft x) (pchunk x) (mleft x).
-Definition set_swin (v : Z) (x : stream) : stream := mkS (sid x) (q x) v (blocked x) (sent x) (body x) (finished x) (hasprod x) (producing x) (pleft x) (pchunk x) (mleft x).
-Definition set_blocked (v : bool) (x : stream) : stream := mkS (sid x) (q x) (swin x) v (sent x) (body x) (finished x) (hasprod x) (producing x) (pleft x) (pchunk x) (mleft x).
-Definition set_sent (v : Z) (x : stream) : stream := mkS (sid x) (q x) (swin x) (blocked x) v (body x) (finished x) (hasprod x) (producing x) (pleft x) (pchunk x) (mleft x).
-Definition set_body (v : Z) (x : stream) : stream := mkS (sid x) (q x) (swin x) (blocked x) (sent x) v (finished x) (hasprod x) (producing x) (pleft x) (pchunk x) (mleft x).
-Definition set_finished (v : bool) (x : stream) : stream := mkS (sid x) (q x) (swin x) (blocked x) (sent x) (body x) v (hasprod x) (producing x) (pleft x) (pchunk x) (mleft x).
-Definition set_hasprod (v : bool) (x : stream) : stream := mkS (sid x) (q x) (swin x) (blocked x) (sent x) (body x) (finished x) v (producing x) (pleft x) (pchunk x) (mleft x).
-Definition set_producing (v : bool) (x : stream) : stream := mkS (sid x) (q x) (swin x) (blocked x) (sent x) (body x) (finished x) (hasprod x) v (pleft x) (pchunk x) (mleft x).
-Definition set_pleft (v : nat) (x : stream) : stream := mkS (sid x) (q x) (swin x) (blocked x) (sent x) (body x) (finished x) (hasprod x) (producing x) v (pchunk x) (mleft x).
-Definition set_pchunk (v : Z) (x : stream) : stream := mkS (sid x) (q x) (swin x) (blocked x) (sent x) (body x) (finished x) (hasprod x) (producing x) (pleft x) v (mleft x).
-Definition set_mleft (v : list Z) (x : stream) : stream := mkS (sid x) (q x) (swin x) (blocked x) (sent x) (body x) (finished x) (hasprod x) (producing x) (pleft x) (pchunk x) v.
+Definition set_q (v : list (option Z)) (x : stream) : stream := mkS (sid x) v (swin x) (blocked x) (sent x) (body x) (finished x) (hasprod x) (producing x) (pleft x) (pchunk x) (mleft x) (lazy x).
+Definition set_swin (v : Z) (x : stream) : stream := mkS (sid x) (q x) v (blocked x) (sent x) (body x) (finished x) (hasprod x) (producing x) (pleft x) (pchunk x) (mleft x) (lazy x).
+Definition set_blocked (v : bool) (x : stream) : stream := mkS (sid x) (q x) (swin x) v (sent x) (body x) (finished x) (hasprod x) (producing x) (pleft x) (pchunk x) (mleft x) (lazy x).
+Definition set_sent (v : Z) (x : stream) : stream := mkS (sid x) (q x) (swin x) (blocked x) v (body x) (finished x) (hasprod x) (producing x) (pleft x) (pchunk x) (mleft x) (lazy x).
+Definition set_body (v : Z) (x : stream) : stream := mkS (sid x) (q x) (swin x) (blocked x) (sent x) v (finished x) (hasprod x) (producing x) (pleft x) (pchunk x) (mleft x) (lazy x).
+Definition set_finished (v : bool) (x : stream) : stream := mkS (sid x) (q x) (swin x) (blocked x) (sent x) (body x) v (hasprod x) (producing x) (pleft x) (pchunk x) (mleft x) (lazy x).
+Definition set_hasprod (v : bool) (x : stream) : stream := mkS (sid x) (q x) (swin x) (blocked x) (sent x) (body x) (finished x) v (producing x) (pleft x) (pchunk x) (mleft x) (lazy x).
+Definition set_producing (v : bool) (x : stream) : stream := mkS (sid x) (q x) (swin x) (blocked x) (sent x) (body x) (finished x) (hasprod x) v (pleft x) (pchunk x) (mleft x) (lazy x).
+Definition set_pleft (v : nat) (x : stream) : stream := mkS (sid x) (q x) (swin x) (blocked x) (sent x) (body x) (finished x) (hasprod x) (producing x) v (pchunk x) (mleft x) (lazy x).
+Definition set_pchunk (v : Z) (x : stream) : stream := mkS (sid x) (q x) (swin x) (blocked x) (sent x) (body x) (finished x) (hasprod x) (producing x) (pleft x) v (mleft x) (lazy x).
+Definition set_mleft (v : list Z) (x : stream) : stream := mkS (sid x) (q x) (swin x) (blocked x) (sent x) (body x) (finished x) (hasprod x) (producing x) (pleft x) (pchunk x) v (lazy x).
+Definition set_lazy (v : bool) (x : stream) : stream := mkS (sid x) (q x) (swin x) (blocked x) (sent x) (body x) (finished x) (hasprod x) (producing x) (pleft x) (pchunk x) (mleft x) v.
 
 Inductive ev :=
 | EData (i : nat) (n sw cw mf : Z)   (* DATA frame of n bytes on stream i; ghost: stream window, connection window,
@@ -59,8 +61,11 @@ Record st := mk {
   maxf : Z;
   iw : Z;                   (* the peer's SETTINGS_INITIAL_WINDOW_SIZE *)
   last : option nat;        (* scheduler state of the shim: stream served last *)
-  scheduled : bool;         (* a callLater(0, _sendPrioritisedData) is pending; false: parked on _sendingDeferred *)
-  log : list ev             (* newest first *)
+  scheduled : bool;         (* a callLater(0, _sendPrioritisedData) is pending *)
+  log : list ev;            (* newest first *)
+  tblocked : bool;          (* the transport has paused the connection (_consumerBlocked is set) *)
+  chained : bool            (* the loop waits behind the transport (chained to _consumerBlocked); neither scheduled nor
+                               chained = parked on _sendingDeferred *)
 }.
 
 (** what the application of a stream does *)
@@ -68,6 +73,9 @@ Inductive application :=
 | Static (chunks : list Z)          (* writes every chunk and finishes while the request is rendered *)
 | Manual (chunks : list Z)          (* writes / finishes when the history says so *)
 | Producer (chunk : Z) (n : nat)    (* push producer registered and started while the request is rendered *)
+| LazyProducer (pre chunk : Z) (n : nat)
+      (* like PreProducer, but the producer checks whether it was paused BEFORE finishing: if its last write paused
+         it, it finishes only when it is resumed (request.finish() from resumeProducing without writing) *)
 | PreProducer (pre chunk : Z) (n : nat).
       (* writes [pre] bytes directly, THEN registers a push producer for the rest and starts it *)
 
@@ -79,12 +87,14 @@ Inductive op :=
 | AppWrite (i : nat)        (* the application of manual stream i writes its next chunk *)
 | AppFinish (i : nat)       (* the application of manual stream i calls request.finish() *)
 | Req (i : nat) (a : application)    (* the request for stream i arrives now (not before the loop first ran) *)
+| TPause                    (* the transport calls pauseProducing() on the connection (ignored while already paused) *)
+| TResume                   (* the transport calls resumeProducing() *)
 | Drain.                    (* the reactor keeps running pending calls until the loop parks or nothing has been sent for
                                [quiet_limit] consecutive iterations (a stream with an exhausted window keeps the loop
                                spinning, so "no pending call" alone is not a quiescence test); at most 300 calls *)
 
-Definition set_streams (l : list stream) (s : st) : st := mk l (cwin s) (maxf s) (iw s) (last s) (scheduled s) (log s).
-Definition emit (e : ev) (s : st) : st := mk (streams s) (cwin s) (maxf s) (iw s) (last s) (scheduled s) (e :: log s).
+Definition set_streams (l : list stream) (s : st) : st := mk l (cwin s) (maxf s) (iw s) (last s) (scheduled s) (log s) (tblocked s) (chained s).
+Definition emit (e : ev) (s : st) : st := mk (streams s) (cwin s) (maxf s) (iw s) (last s) (scheduled s) (e :: log s) (tblocked s) (chained s).
 
 Definition upd_stream (i : nat) (f : stream -> stream) (l : list stream) : list stream :=
   map (fun x => if Nat.eqb (sid x) i then f x else x) l.
@@ -129,7 +139,7 @@ Definition send_on (cw mf : Z) (y : stream) : stream :=
   | _ => y
   end.
 
-Definition resched (i : nat) (s : st) : st := mk (streams s) (cwin s) (maxf s) (iw s) (Some i) true (log s).
+Definition resched (i : nat) (s : st) : st := mk (streams s) (cwin s) (maxf s) (iw s) (Some i) true (log s) (tblocked s) false.
 
 (** one iteration of _sendPrioritisedData serving stream i *)
 Definition adv_on (i : nat) (s : st) : st :=
@@ -147,7 +157,7 @@ Definition adv_on (i : nat) (s : st) : st :=
           let n1 := frame_len (cwin s) (maxf s) x in
           let s1 := if Z.ltb 0 n1
                     then mk (upd_stream i (send_on (cwin s) (maxf s)) (streams s)) (cwin s - n1) (maxf s) (iw s)
-                            (last s) (scheduled s) (EData i n1 (swin x) (cwin s) (maxf s) :: log s)
+                            (last s) (scheduled s) (EData i n1 (swin x) (cwin s) (maxf s) :: log s) (tblocked s) (chained s)
                     else s in
           let s2 := match find_stream i (streams s1) with
                     | Some y => if Z.leb (rem_out (cwin s1) y) 0 then flow_blocked i s1 else s1
@@ -184,12 +194,16 @@ Definition pick (s : st) : option nat :=
 (** one call of _sendPrioritisedData *)
 Definition run_iter (s : st) : st :=
   match pick s with
-  | Some i => adv_on i s
-  | None => mk (streams s) (cwin s) (maxf s) (iw s) (last s) false (log s)    (* DeadlockError: park *)
+  | Some i =>
+      if tblocked s
+      then (* "Wait behind the transport": the loop chains itself to _consumerBlocked (the tree has already moved on) *)
+           mk (streams s) (cwin s) (maxf s) (iw s) (Some i) false (log s) true true
+      else adv_on i s
+  | None => mk (streams s) (cwin s) (maxf s) (iw s) (last s) false (log s) (tblocked s) false   (* DeadlockError: park *)
   end.
 
 (** fire _sendingDeferred if the sender is parked *)
-Definition fire (s : st) : st := if scheduled s then s else run_iter s.
+Definition fire (s : st) : st := if scheduled s || chained s then s else run_iter s.
 
 (** the queue side of writeDataToStream / endRequest (nothing is ever queued behind the end sentinel) *)
 Definition app_chunk (n : Z) (y : stream) : stream :=
@@ -245,7 +259,7 @@ Definition prod_run (i : nat) (s : st) : st :=
   let s1 := prod_loop fuel i s in
   match find_stream i (streams s1) with
   | Some x =>
-      if hasprod x && Nat.eqb (pleft x) 0
+      if hasprod x && Nat.eqb (pleft x) 0 && (negb (lazy x) || producing x)
       then end_req i (upd i (fun y => set_producing false (set_hasprod false y)) s1)
       else s1
   | None => s1
@@ -272,10 +286,11 @@ Definition conn_window_updated (s : st) : st :=
 (** the request for stream i arrives: inserted and blocked in the priority tree, then rendered *)
 Definition new_stream (i : nat) (w : Z) (a : application) : stream :=
   match a with
-  | Static cs => mkS i [] w true 0 0 false false false O 0 cs
-  | Manual cs => mkS i [] w true 0 0 false false false O 0 cs
-  | Producer c n => mkS i [] w true 0 0 false true true n c []
-  | PreProducer _ c n => mkS i [] w true 0 0 false false false n c []
+  | Static cs => mkS i [] w true 0 0 false false false O 0 cs false
+  | Manual cs => mkS i [] w true 0 0 false false false O 0 cs false
+  | Producer c n => mkS i [] w true 0 0 false true true n c [] false
+  | PreProducer _ c n => mkS i [] w true 0 0 false false false n c [] false
+  | LazyProducer _ c n => mkS i [] w true 0 0 false false false n c [] true
   end.
 
 Definition app_write (i : nat) (s : st) : st :=
@@ -298,7 +313,7 @@ Definition render (i : nat) (a : application) (s : st) : st :=
   | Static cs => app_finish i (fold_left (fun acc _ => app_write i acc) cs s)
   | Manual _ => s
   | Producer _ _ => prod_run i s
-  | PreProducer pre _ _ =>
+  | PreProducer pre _ _ | LazyProducer pre _ _ =>
       (* request.write(preamble); request.registerProducer(p, True); p starts producing *)
       let s1 := if Z.ltb 0 pre then write_to i pre s else s in
       prod_run i (upd i (fun y => set_producing true (set_hasprod true y)) s1)
@@ -326,7 +341,7 @@ Fixpoint drain (fuel quiet : nat) (s : st) : st :=
 Definition step (s : st) (o : op) : st :=
   match o with
   | Adv => if scheduled s then run_iter s else s
-  | WU O inc => fire (conn_window_updated (mk (streams s) (cwin s + inc) (maxf s) (iw s) (last s) (scheduled s) (log s)))
+  | WU O inc => fire (conn_window_updated (mk (streams s) (cwin s + inc) (maxf s) (iw s) (last s) (scheduled s) (log s) (tblocked s) (chained s)))
   | WU i inc =>
       match find_stream i (streams s) with
       | None => fire s
@@ -337,12 +352,18 @@ Definition step (s : st) (o : op) : st :=
          that applies to all streams *)
       fire (conn_window_updated
               (mk (map (fun y => set_swin (swin y + (v - iw s)) y) (streams s))
-                  (cwin s) (maxf s) v (last s) (scheduled s) (log s)))
-  | SetMF v => mk (streams s) (cwin s) v (iw s) (last s) (scheduled s) (log s)
+                  (cwin s) (maxf s) v (last s) (scheduled s) (log s) (tblocked s) (chained s)))
+  | SetMF v => mk (streams s) (cwin s) v (iw s) (last s) (scheduled s) (log s) (tblocked s) (chained s)
   | AppWrite i => app_write i s
   | AppFinish i => app_finish i s
   | Req i a => request i a s
   | Drain => drain 300 0 s
+  | TPause => mk (streams s) (cwin s) (maxf s) (iw s) (last s) (scheduled s) (log s) true (chained s)
+  | TResume =>
+      if tblocked s then
+        let s1 := mk (streams s) (cwin s) (maxf s) (iw s) (last s) (scheduled s) (log s) false false in
+        if chained s then run_iter s1 else s1
+      else s
   end.
 
 
@@ -354,6 +375,6 @@ Fixpoint setup (k : nat) (apps : list application) (s : st) : st :=
       setup (S k) r (request i a s)
   end.
 
-Definition init (w : Z) (apps : list application) : st := setup 0 apps (mk [] 65535 16384 w None true []).
+Definition init (w : Z) (apps : list application) : st := setup 0 apps (mk [] 65535 16384 w None true [] false false).
 
 Definition run (w : Z) (apps : list application) (ops : list op) : st := fold_left step ops (init w apps).
